@@ -47,7 +47,7 @@ def add_hostile_tail(g, st, rng, log):
     for _ in range(rng.randint(1, 3)):
         numcols = [c for c in st.cols(("i", "f")) if str(c).isidentifier()]
         strcols = [c for c in st.cols(("s",)) if str(c).isidentifier()]
-        kind = rng.choice(["num", "num", "num", "str", "sel-num", "sel-str", "window", "concat", "rename"])
+        kind = rng.choice(["num", "num", "num", "shared-term", "str", "sel-num", "sel-str", "window", "concat", "rename"])
         step = None
         newk = {}
         right = None
@@ -58,6 +58,19 @@ def add_hostile_tail(g, st, rng, log):
                 ops.append([t, hostile.num_expr(rng, numcols, 0, rng.choice([2, 3, 4]))])
                 newk[t] = "f"
             step = {"op": "extend", "ops": ops}
+        elif kind == "shared-term" and numcols:
+            # one expression object in two roles: an assignment of its own first, then an operand of another assignment
+            e = hostile.num_expr(rng, numcols, 0, rng.choice([2, 3]))
+            if e[0] == "bin":
+                t1, t2 = g.newcol(st, "h"), None
+                st_tmp = R.St(st.node, st.frame.assign(**{t1: 0.0}), dict(st.kinds, **{t1: "f"}))
+                t2 = g.newcol(st_tmp, "h")
+                op2 = rng.choice(["/", "-", "*", "**"]) if rng.random() < 0.8 else "+"
+                other = ["col", rng.choice(numcols)]
+                e2 = ["bin", op2, other, e] if rng.random() < 0.6 else ["bin", op2, e, other]
+                step = {"op": "extend", "ops": [[t1, e], [t2, e2]]}
+                newk[t1] = "f"
+                newk[t2] = "f"
         elif kind == "str":
             t = g.newcol(st, "hs")
             step = {"op": "extend", "ops": [[t, hostile.str_expr(rng, strcols)]]}
